@@ -573,3 +573,83 @@ def c05_l3(ctx):
             yield bad("C05-L3", key, at(d["encoded_len"]), "encode emits %s but encoded_len announces %s" % (sorted(emitted - announced)[:4] or "a subset", sorted(announced - emitted)[:4] or "a subset"))
     if n == 0:
         raise Anchor("C05-L3", "types with encode + encoded_len")
+
+
+# ================================================================ C05-L2
+CONSULT = ("read", "read_to_end", "read_to_string", "fill_buf", "bytes", "read_buf", "read_vectored", "has_data_left")
+READS = ("read_exact", "read_u8", "read_i8", "read_u16", "read_u24", "read_u32", "read_u48", "read_u64", "read_u128", "read_uint", "read_i16", "read_i32", "read_i64")
+
+
+@rule("C05", "C05-L2", 5, "items are self-delimiting: a decoder that consults the end of its input (short read, read_to_end) is only ever run in tail position of its reader - nothing more is read from that reader after it")
+def c05_l2(ctx):
+    """Necessary for decode(encode(v)) == v when items are written back to back: an item whose
+    decoder decides a value from 'the input ended here' decodes differently when followed by
+    another item.  The set E of end-of-input-dependent decoders is computed over the call graph
+    (a decoder that hands its own reader to a member of E is in E); every call of a member of E is
+    then required to be the last read on the reader it is given."""
+    D = [f for f in ctx.prog.by_norm.values() if f.crate == "cfdp_core" and f.kind != "Closure" and f.arg_count >= 1 and re.match(r"^&mut (T|&\[u8\]|impl )", f.locals[1]["ty"])]
+    if len(D) < 30:
+        raise Anchor("C05-L2", "decoders taking a generic reader (%d found)" % len(D))
+    Dn = {f.norm for f in D}
+    info = {}
+    for f in D:
+        eb = ExprBuilder(ctx.prog, f, user_stop=True)
+        own = [vn for vn, l, pj in f.var_places if l == 1 and not pj]
+        own = own[0] if own else None
+        calls = []
+        for b, t in f.all_calls():
+            e = eb.call(b, t)
+            if not e[3]:
+                continue
+            cal = callee_name(e) or ""
+            last = cal.split("::")[-1]
+            a0 = e[3][0]
+            while a0[0] == "ref":
+                a0 = a0[2]
+            rd = expr_str(a0)
+            kind = None
+            tg = [g.norm for g in ctx.prog.call_targets(t) if g.norm in Dn]
+            if tg:
+                kind = "sub"
+            elif last in CONSULT and ("Read" in cal or "BufRead" in cal or "io::" in cal):
+                kind = "consult"
+            elif last in READS and ("Read" in cal or "io::" in cal or "byteorder" in cal):
+                kind = "read"
+            if kind:
+                calls.append((b, t, kind, rd, tg, last))
+        info[f.norm] = (f, own, calls)
+    E = {}
+    changed = True
+    while changed:
+        changed = False
+        for n, (f, own, calls) in info.items():
+            if n in E:
+                continue
+            for b, t, kind, rd, tg, last in calls:
+                if rd != own:
+                    continue
+                if kind == "consult":
+                    E[n] = "%s() on its own reader" % last
+                    changed = True
+                    break
+                if kind == "sub" and any(g in E for g in tg):
+                    E[n] = "hands its reader to " + short([g for g in tg if g in E][0])
+                    changed = True
+                    break
+    if len(E) < 5:
+        raise Anchor("C05-L2", "end-of-input-delimited decoders (the PDU payloads with trailing lists / file data): %d found" % len(E))
+    cnt = {}
+    for n, (f, own, calls) in sorted(info.items()):
+        for b, t, kind, rd, tg, last in calls:
+            if kind != "sub" or not any(g in E for g in tg):
+                continue
+            g = [x for x in tg if x in E][0]
+            base = "%s->%s" % (short(f.impl_self_adt or f.norm) + "::" + f.name, short(ctx.prog.by_norm[g].impl_self_adt or g))
+            cnt[base] = cnt.get(base, 0) + 1
+            key = base + ("#%d" % cnt[base] if cnt[base] > 1 else "")
+            after = f.reachable(t["target"]) if t.get("target") is not None else set()
+            later = [(b2, last2) for b2, t2, k2, rd2, tg2, last2 in calls if rd2 == rd and b2 in after]
+            if later:
+                yield bad("C05-L2", key, at(f, t["span"]["line"]), "%s decides a value from the end of its input (%s) but more is read from the same reader `%s` afterwards (%s at L%d): the item is not self-delimiting, written back to back it swallows or loses what follows" % (short(g), E[g], rd, later[0][1], f.blocks[later[0][0]]["term"]["span"]["line"]))
+            else:
+                yield ok("C05-L2", key, at(f, t["span"]["line"]), "tail position on reader `%s` (%s: %s)" % (rd, short(g), E[g]))
